@@ -169,11 +169,11 @@ def case_oracle(sample):
             base.update(kind="bag", shape=[], V=sample["V"], bag_lens=lens, B=len(lens), bag_dup=sample["repeated_index_in_a_bag"],
                         layers=[{"t": "EmbeddingBag", "V": sample["V"], "D": sample["D"], "mode": sample["mode"]}])
         elif lay == "GroupNorm":
-            base.update(kind="c1", shape=[sample["C"]] + sample["spatial"], layers=[{"t": "GroupNorm", "groups": sample["groups"], "C": sample["C"]}])
+            base.update(kind="c1", shape=[sample["C"]] + sample["spatial"], layers=[{"t": "GroupNorm", "groups": sample["groups"], "C": sample["C"], "eps": sample.get("eps") or 1e-5}])
         elif lay and lay.startswith("InstanceNorm"):
-            base.update(kind="c1", shape=[sample["C"]] + sample["spatial"], layers=[{"t": "InstanceNorm", "nd": len(sample["spatial"]), "C": sample["C"]}])
+            base.update(kind="c1", shape=[sample["C"]] + sample["spatial"], layers=[{"t": "InstanceNorm", "nd": len(sample["spatial"]), "C": sample["C"], "eps": sample.get("eps") or 1e-5}])
         elif lay == "LayerNorm":
-            base.update(kind="vec", shape=sample["mid"] + sample["normalized_shape"], layers=[{"t": "LayerNorm", "nshape": sample["normalized_shape"], "bias": sample["bias"] != "n"}])
+            base.update(kind="vec", shape=sample["mid"] + sample["normalized_shape"], layers=[{"t": "LayerNorm", "nshape": sample["normalized_shape"], "bias": sample["bias"] != "n", "eps": sample.get("eps") or 1e-5}])
         elif lay == "SequenceBias":
             base.update(kind="seq", batch_first=False, shape=[max(1, sample["L"]), 2 * ((sample["E"] + 1) // 2)],
                         layers=[{"t": "MHA", "E": 2 * ((sample["E"] + 1) // 2), "heads": 2, "bias_kv": True}])
